@@ -66,6 +66,46 @@ def sol_universe(sol) -> Dict[str, List[Any]]:
     return uni
 
 
+def sol_universe_from_first(first: Dict[str, Any]) -> Optional[Dict[str, List[Any]]]:
+    """The solution as the tool WROTE it (pins + annotation structure of the first compile), turned into the
+    universe a correct loader must recover: every emitted pin with, as requirements, the projects whose
+    annotation names it.  Independent of the loader.  None when an annotation carries two activating extras
+    (the loader then picks one arbitrarily)."""
+    import solver_oracles as SO
+    nodes = {n["key"]: n for n in first["graph"]}
+    em = sorted(first["emitted"], key=lambda k: nodes[k]["meta"][0].lower())
+    name_of = {k: nodes[k]["meta"][0] for k in em}
+    reqs: Dict[str, List[str]] = {k: [] for k in em}
+    by_name = {name_of[k]: k for k in em}
+    for k in em:
+        ex = first["explain"].get(k)
+        if not ex or ex[0] != "OK":
+            return None
+        for (src, act, clauses, extras) in sorted(ex[1], key=lambda e: (e[0].lower(), str(e))):
+            if src not in by_name:
+                continue            # an input file: not a pinned requirer
+            if len(act) > 1:
+                return None
+            text = name_of[k]
+            if extras:
+                text += "[" + ",".join(sorted(extras)) + "]"
+            text += ",".join(SO._clause_text(c) for c in clauses)
+            if act:
+                text += ' ; extra == "{}"'.format(act[0])
+            reqs[by_name[src]].append(text)
+    return {k: [[name_of[k], nodes[k]["meta"][1], reqs[k], True]] for k in em}
+
+
+def canon_universe(u: Dict[str, List[Any]]) -> Any:
+    import req_compile.utils as U
+    import enc440
+    out = {}
+    for k, cands in u.items():
+        c = cands[0]
+        out[k] = [c[0], c[1], sorted(json.dumps(enc440.obs_req(U.parse_requirement(r)), sort_keys=True) for r in c[2])]
+    return out
+
+
 def pins_of(obs: Dict[str, Any]) -> Dict[str, str]:
     em = set(obs.get("emitted") or [])
     return {n["key"]: n["meta"][1] for n in obs["graph"] if n["meta"] is not None and not n["meta"][2] and n["key"] in em}
@@ -132,7 +172,12 @@ def build_chain(ctx: Ctx, M, alphabet, tmp: str, idx: int) -> Optional[Dict[str,
     except Exception as ex:  # noqa: BLE001
         ctx.count("loader-raised:" + type(ex).__name__)
         return {"variant": variant, "case": case, "first": first, "loader_error": type(ex).__name__, "multiline": multiline}
-    su = sol_universe(sol)
+    su_loaded = sol_universe(sol)
+    su = sol_universe_from_first(first)
+    if su is None:
+        ctx.count("skipped:two-activating-extras")
+        return None
+    loader_diff = canon_universe(su_loaded) != canon_universe(su)
     for k in excluded:
         su.pop(U.normalize_project_name(k), None)
     Repo = solverlib.make_repo_class(R, C, E, U)
@@ -143,12 +188,15 @@ def build_chain(ctx: Ctx, M, alphabet, tmp: str, idx: int) -> Optional[Dict[str,
     else:
         repo2 = MU.MultiRepository(sol, mem2)
         stack = [{"universe": su, "allow_pre": True}, {"universe": new_uni, "allow_pre": case["allow_pre"]}]
+    ob = rng.choice([None, None, ":all:", rng.sample(sorted(first["emitted"]), 1)])
     second_case = {"mode": "chain", "universe": {}, "stack": stack, "inputs": inputs, "constraints": None,
-                   "remove_constraints": False, "allow_pre": case["allow_pre"], "max_downgrade": case["max_downgrade"]}
+                   "remove_constraints": False, "allow_pre": case["allow_pre"], "max_downgrade": case["max_downgrade"],
+                   "only_binary": ob}
     second = run_second(second_case, repo2, M)
     second["index_log"] = list(mem2.log)
     return {"variant": variant, "case": case, "first": first, "second_case": second_case, "second": second,
-            "excluded": excluded, "multiline": multiline}
+            "excluded": excluded, "multiline": multiline, "loader_diff": loader_diff,
+            "loaded": canon_universe(su_loaded) if loader_diff else None, "new_universe": new_uni}
 
 
 def run_second(case: Dict[str, Any], repo, M) -> Dict[str, Any]:
@@ -159,8 +207,10 @@ def run_second(case: Dict[str, Any], repo, M) -> Dict[str, Any]:
     import contextlib
     buf = io.StringIO()
     try:
+        ob = case.get("only_binary")
+        only_binary = None if ob is None else (CP.AllOnlyBinarySet() if ob == ":all:" else {U.normalize_project_name(x) for x in ob})
         with contextlib.redirect_stderr(buf):
-            results, roots = CP.perform_compile(inputs, repo, max_downgrade=case["max_downgrade"])
+            results, roots = CP.perform_compile(inputs, repo, max_downgrade=case["max_downgrade"], only_binary=only_binary)
         out = {"kind": "OK", "graph": graphenc.obs_graph(results, with_bc=False), "roots": sorted(r.key for r in roots)}
         emitted = [n for n in results.visit_nodes(roots) if n.metadata is not None and not n.metadata.meta]
         out["emitted"] = sorted(n.key for n in emitted)
@@ -192,6 +242,9 @@ def chain_violation(ch: Dict[str, Any]) -> Optional[str]:
     if "loader_error" in ch:
         return f"the tool's own output cannot be loaded back as a solution ({ch['loader_error']})"
     first, second, variant = ch["first"], ch["second"], ch["variant"]
+    import solver_oracles as SO
+    if SO.c02(ch["case"], first) or SO.c01(ch["case"], first):
+        return None     # the first output is itself not a closed, consistent solution (properties C01/C02, listed there)
     p1 = pins_of(first)
     if variant == "v1-same-inputs":
         if second["kind"] != "OK":
@@ -209,6 +262,42 @@ def chain_violation(ch: Dict[str, Any]) -> Optional[str]:
             return f"a subset of the original inputs does not compile against the solution alone ({second['kind']})"
         if pins_of(second) != want:
             return f"sub-closure differs: expected {want}, got {pins_of(second)}"
+    elif variant == "v3-release-one":
+        if second["kind"] != "OK":
+            return None     # the released project may legitimately have no acceptable newer version
+        p2 = pins_of(second)
+        rel = {graphenc_key(x) for x in ch["excluded"]}
+        from packaging.requirements import Requirement
+        from packaging.version import Version
+        import solver_oracles as SO
+        uni = ch["new_universe"]
+        for k, v1 in p1.items():
+            if k in rel or k not in p2 or p2[k] == v1:
+                continue
+            # the pin changed: something in the new solution (or an input) must rule the old version out,
+            # or the old version's own requirements must be unsatisfiable against the new pins
+            forced = False
+            for k2, v2 in p2.items():
+                for c in uni.get(k2, []):
+                    if Version(c[1]) == Version(v2):
+                        for rt in c[2]:
+                            r = Requirement(rt)
+                            if SO.canon(r.name) == k and not r.specifier.contains(Version(v1), prereleases=True):
+                                forced = True
+            for (_, reqs) in ch["second_case"]["inputs"]:
+                for rt in reqs:
+                    r = Requirement(rt)
+                    if SO.canon(r.name) == k and not r.specifier.contains(Version(v1), prereleases=True):
+                        forced = True
+            for c in uni.get(k, []):
+                if Version(c[1]) == Version(v1):
+                    for rt in c[2]:
+                        r = Requirement(rt)
+                        t = SO.canon(r.name)
+                        if t in p2 and not r.specifier.contains(Version(p2[t]), prereleases=True):
+                            forced = True
+            if not forced:
+                return f"releasing {sorted(rel)} moved {k} {v1} -> {p2[k]} although nothing in the new solution forces it"
     return None
 
 
@@ -225,7 +314,7 @@ def correspondence(ctx: Ctx) -> None:
 
     def work():
         chains = []
-        for i in range(ctx.n(700, 20000)):
+        for i in range(ctx.n(2200, 40000)):
             ch = build_chain(ctx, M, alphabet, tmp, i % 50)
             if ch is not None:
                 chains.append(ch)
@@ -253,6 +342,8 @@ def correspondence(ctx: Ctx) -> None:
             sample = {"variant": ch["variant"], "inputs": ch["second_case"]["inputs"], "first_pins": p1,
                       "second": i["kind"], "second_pins": pins_of(i) if i["kind"] == "OK" else None, "index_requests": i.get("index_log")}
         ctx.case(key=key, nontrivial=len(p1) >= 2, sample=sample)
+        if ch.get("loader_diff"):
+            ctx.mismatch("solution-load", {"chain": _brief_chain(ch)}, ch["loaded"], canon_universe(ch["second_case"]["stack"][0]["universe"]))
         if m["kind"] == "AMBIGUOUS":
             ctx.count("model:hash-order-ambiguous")
         elif solverlib.canon(i) != solverlib.canon(m):
@@ -269,7 +360,8 @@ def correspondence(ctx: Ctx) -> None:
 
 def _brief_chain(ch: Dict[str, Any]) -> Dict[str, Any]:
     return {"variant": ch["variant"], "case": solver_case(ch["case"]), "second_inputs": ch["second_case"]["inputs"],
-            "excluded": ch["excluded"], "multiline": ch["multiline"], "stack": ch["second_case"]["stack"]}
+            "excluded": ch["excluded"], "multiline": ch["multiline"], "stack": ch["second_case"]["stack"],
+            "only_binary": ch["second_case"].get("only_binary"), "new_universe": ch.get("new_universe")}
 
 
 def solver_case(c: Dict[str, Any]) -> Dict[str, Any]:
